@@ -246,6 +246,10 @@ func (r *run) scriptedIbc() {
 	r.ibcrecv(5, 2, 9)
 	r.ibc2base(5, 2, 9, false)
 	r.xibc(5, 0, 3)
+	// FX is its own alias on every route: amount 0 is a no-op, anything else is refused (false alarm of the thorough tier,
+	// repaired in the model)
+	r.base2ibc(0, 0, 0)
+	r.base2ibc(0, 0, 3)
 }
 
 // randomIbc: state-aware, boundary-biased against what the user holds / what is parked in the transfer module account
